@@ -6,4 +6,8 @@ p = [json.loads(l) for l in open('/verif/properties.jsonl') if json.loads(l)['id
 s = open('/verif/.prompts/seeder.md').read()
 s = s.replace('__WT__', f'/tmp/seed-{pid}').replace('__OUT__', f'/tmp/seed-out/{pid}').replace('__TITLE__', p['title'])
 s = s.replace('__STATEMENT__', p['statement']).replace('__QUANT__', p['quantifier']['text']).replace('__K__', k)
+import os
+st=os.environ.get('SEED_STEER')
+if st:
+    s += open(st).read().replace('__K__', k)
 print(s)
